@@ -77,8 +77,10 @@ func (s *MultiplexedSource) Run() {
 		if s.IsTerminating() {
 			return
 		}
+		verifPoint("mux.after_check")
 
 		s.connectSources()
+		verifPoint("mux.before_sleep")
 
 		time.Sleep(sourceReconnectDelay)
 	}
@@ -95,6 +97,7 @@ func (s *MultiplexedSource) connectSources() {
 	if s.IsTerminating() {
 		return
 	}
+	verifPoint("mux.connect_checked")
 
 	failingSources := 0
 	for idx, factory := range s.sourceFactories {
@@ -103,8 +106,10 @@ func (s *MultiplexedSource) connectSources() {
 		if src == nil || src.IsTerminating() {
 			shuttingSrcHandler := HandlerFunc(func(blk *pbbstream.Block, obj interface{}) error {
 				s.handlerLock.Lock()
+				verifPoint("mux.handler_locked")
 				err := s.handler.ProcessBlock(blk, obj)
 				s.handlerLock.Unlock()
+				verifPoint("mux.handler_unlocked")
 				if err != nil {
 					s.logger.Error("unable to process block, shutting down source")
 					s.Shutdown(err)
@@ -113,6 +118,7 @@ func (s *MultiplexedSource) connectSources() {
 			})
 
 			newSrc := factory(shuttingSrcHandler)
+			verifPoint("mux.before_lockedinit")
 			s.logger.Info("new source factory created")
 			err := s.LockedInit(func() error {
 				s.logger.Debug("safe running source")
@@ -120,6 +126,7 @@ func (s *MultiplexedSource) connectSources() {
 				go newSrc.Run()
 				return nil
 			})
+			verifPoint("mux.after_lockedinit")
 
 			if err != nil {
 				s.logger.Error("safe run", zap.Error(err))
